@@ -51,14 +51,14 @@ class Ctx:
         self.max_paths = 4096 if tier == 'quick' else 8 * 4096
 
     # -- recording
-    def ob(self, rule, where, statement, ok, reason='', line=0, clause='', key=None):
+    def ob(self, rule, where, statement, ok, reason='', line=0, clause='', key=None, witness=False):
         """``where``: FuncInfo | (file, function) ;  ok: True/False/None(undecided)"""
         if hasattr(where, 'file'):
             file, function = where.file, getattr(where, 'qual', '')
         else:
             file, function = where
         verdict = HOLDS if ok is True else VIOLATION if ok is False else UNDECIDED
-        if verdict == VIOLATION and rule not in WITNESS_RULES and not os.environ.get('BISTAT_NO_GATE'):
+        if verdict == VIOLATION and not witness and rule not in WITNESS_RULES and not os.environ.get('BISTAT_NO_GATE'):
             # closed-world gate: "not what the rule expects" is evidence only in a function whose
             # every construct the analysis resolves
             fi = where if hasattr(where, 'node') else self.repo.func_by_where(file, function)
@@ -79,8 +79,10 @@ class Ctx:
     def holds(self, rule, where, statement, reason='', line=0, clause=''):
         return self.ob(rule, where, statement, True, reason, line, clause)
 
-    def violation(self, rule, where, statement, reason='', line=0, clause='', key=None):
-        return self.ob(rule, where, statement, False, reason, line, clause, key)
+    def violation(self, rule, where, statement, reason='', line=0, clause='', key=None, witness=False):
+        """``witness``: the statement names the construct that is wrong (what was found, not what
+        was not found): such a report stands whatever else the function contains"""
+        return self.ob(rule, where, statement, False, reason, line, clause, key, witness)
 
     def undecided(self, rule, where, statement, reason='', line=0, clause=''):
         return self.ob(rule, where, statement, None, reason, line, clause)
